@@ -4,7 +4,9 @@ spec/reflect/EmbedLookup.tla  FieldByName("X") through every embedding graph ove
 spec/reflect/BlankCmp.tla     comparability of structs with blank fields (Type/Value.Comparable, interface ==, map[any] key)
 spec/reflect/ConvCopy.tla     a Value made by Convert, and an interface made from it, are values of their own: every script
                               over {mut, conv, iface, readc, readi} of up to 5 steps x {struct, array, string, int} operands
-spec/reflect/ReflectRO.tla    read-only flags of a Value along every path of 1..3 field selections (vlib/c15ro.py, own program)
+spec/reflect/ReflectRO.tla    read-only flags of a Value along every path of 1..3 field selections (vlib/c15ro.py, own program, which
+                              also carries SliceEq.tla - DeepEqual on aliased slices, vlib/c15sl.py - and ChanStr.tla - spelling of
+                              nested channel types, vlib/c15ch.py)
 All are enumerated by TLC, rendered as one Go program, validated with the reference toolchain and compared with the
 llgo-compiled program."""
 import os
